@@ -62,6 +62,8 @@ def instances(tier, seed):
             if ck and nlead + nbody > 2:
                 continue
             out.append(("core", dict(lead=[None] * nlead, body=[None] * nbody, checker=ck)))
+    # the loader's own source handling (decoding: BOM, coding cookies, newlines)
+    out.append(("core", dict(kind="loader")))
     # ext: seeded concrete skeletons (positions stay symbolic)
     n = 1500 if tier == "quick" else 20000
     for _ in range(n):
@@ -76,12 +78,13 @@ def instances(tier, seed):
 BOUNDS = dict(leading="core: all choices of 0..3 leading statements among %d (docstrings incl. the empty string, constant expressions, __future__ imports)" % len(LEAD),
               body="core: all choices of 0..2 body statements among %d menu entries (nesting depth <= 3 inside the entries) for the (lead, body) counts (0,0) (1,0) (2,0) (3,0) (0,1) (1,1) (2,1) (0,2) [thorough: + (1,2) (3,1) (2,2)]; ext: seeded concrete skeletons of up to 3 leading + 4 body statements" % len(STMTS),
               positions="lineno / col_offset / end_lineno / end_col_offset of every node: unbounded solver variables",
-              checkers=[str(c) for c in CHECKERS])
+              checkers=[str(c) for c in CHECKERS],
+              loader="7 encoded sources (UTF-8 plain / non-ASCII / BOM, latin-1 and cp1252 coding cookies, CRLF, docstring+__future__) through _JaxtypingLoader.source_to_code vs the plain SourceFileLoader")
 STUBS = []
 ASSUMPTIONS = ["module skeleton is a solver-branched selector over a menu (enumerative residue); only positions are value variables",
                "combinations the Python grammar forbids (e.g. a __future__ import after another statement) are skipped: ast.parse / compile of the *untransformed* module must succeed",
                "the stdlib/site-packages corpus run named by the property is not attempted (not this family of technique)"]
-REQUIRED_LABELS = {"import-placement", "decorators", "untouched", "positions", "compiles", "future-flags", "docstring"}
+REQUIRED_LABELS = {"import-placement", "decorators", "untouched", "positions", "compiles", "future-flags", "docstring", "loader-decoding"}
 REQUIRED_WITNESS = {"has-def", "has-class", "has-async", "no-defs", "empty-docstring"}
 BUDGET_S = {"quick": 120, "thorough": 900}
 POS = ("lineno", "col_offset", "end_lineno", "end_col_offset")
@@ -115,7 +118,49 @@ def is_added_import(n):
     return isinstance(n, ast.Import) and [a.name for a in n.names] == ["jaxtyping"] and n.names[0].asname is None
 
 
+ENCODED = [
+    ("utf8-plain", "S = 'abc'\ndef f(x):\n    return x\n".encode("utf-8")),
+    ("utf8-nonascii", "S = 'été'\ndef f(x):\n    return x\n".encode("utf-8")),
+    ("utf8-bom", b"\xef\xbb\xbf" + "S = 'été'\ndef f(x):\n    return x\n".encode("utf-8")),
+    ("latin1-cookie", "# -*- coding: latin-1 -*-\nS = 'été'\ndef f(x):\n    return x\n".encode("latin-1")),
+    ("cp1252-cookie", "# coding: cp1252\nS = 'Ã©tÃ©'\ndef f(x):\n    return x\n".encode("cp1252")),
+    ("crlf", "S = 'abc'\r\ndef f(x):\r\n    return x\r\n".encode("utf-8")),
+    ("cr-only-docstring", '"""doc"""\nfrom __future__ import annotations\nS = 1\n'.encode("utf-8")),
+]
+
+
+def scenario_loader(inst, V):
+    """_JaxtypingLoader.source_to_code must read the file exactly as the plain loader does."""
+    import importlib.machinery
+    import os
+    import tempfile
+    from jaxtyping._import_hook import _JaxtypingLoader, Typechecker
+    label, data = ENCODED[V.choose("enc", len(ENCODED))]
+    d = tempfile.mkdtemp(prefix="verif_c10_")
+    path = os.path.join(d, "m.py")
+    try:
+        open(path, "wb").write(data)
+
+        def run(loader):
+            try:
+                code = loader.source_to_code(data, path)
+                ns = {}
+                exec(code, ns)
+                return ("ok", ns.get("S"), ns.get("__doc__"))
+            except Exception as e:  # noqa
+                return ("EXC:" + type(e).__name__, None, None)
+        plain = run(importlib.machinery.SourceFileLoader("m", path))
+        hooked = run(_JaxtypingLoader("m", path, typechecker=Typechecker(None)))
+    finally:
+        import shutil
+        shutil.rmtree(d, ignore_errors=True)
+    V.check("loader-decoding", plain == hooked, encoding=label, plain=repr(plain), hooked=repr(hooked))
+    return dict(encoding=label, same=plain == hooked)
+
+
 def scenario(inst, V):
+    if inst.get("kind") == "loader":
+        return scenario_loader(inst, V)
     from jaxtyping._import_hook import JaxtypingTransformer, Typechecker
     lead = [LEAD[V.choose(f"l{i}", len(LEAD)) if x is None else x] for i, x in enumerate(inst["lead"])]
     body = [STMTS[V.choose(f"b{i}", len(STMTS)) if x is None else x] for i, x in enumerate(inst["body"])]
